@@ -122,11 +122,14 @@ def _gen_matrix(r):
     return "\n".join("".join("1" if r.chance(0.7) else "0" for _ in range(cols)) for _ in range(rows))
 
 
-def _gen_sat_client(r, nvars):
-    pool = []
-    ops = [c07_sat._gen_post(r, nvars, pool, None) for _ in range(r.randint(1, 6))]
+def _gen_sat_client(r, nvars, pool=None):
+    pool = [] if pool is None else pool
+    planted = tuple(r.below(2) for _ in range(nvars)) if r.chance(0.8) else None
+    ops = [c07_sat._gen_post(r, nvars, pool, planted) for _ in range(r.randint(2, 7))]
     if r.chance(0.6):
         ops.append({"op": "solve"})
+    if r.chance(0.25):
+        ops.append({"op": "amo_big", "n": r.choice([500, 900, 1100, 1500])})
     return {"kind": "sat", "nvars": nvars, "ops": ops}
 
 
@@ -200,7 +203,7 @@ def _gen_reject_client(r, scale_exp, family):
     """A client whose only operation is the load of an ill-formed document that is rejected after the loader has already
     touched process-wide state (hard module with grossly overlapping rectangles; die region sticking out)."""
     die = designs.gen_die(r, family=family, scale_exp=scale_exp, max_regions=0)
-    what = r.choice(["hard_overlap", "region_outside", "unknown_net_module"])
+    what = r.choice(["hard_overlap", "region_outside", "unknown_net_module", "big_unencodable_constraint"])
     return {"kind": "reject", "die": die, "what": what, "ops": [{"op": "load_bad"}]}
 
 
@@ -208,6 +211,7 @@ def gen_case(r, index, tier):
     nclients = r.weighted([(2, 5), (3, 3), (4, 1)] if tier != "thorough" else [(2, 3), (3, 4), (4, 3)])
     base = r.choice([-1, 0, 0, 1])
     clients = []
+    sat_pool = []   # SAT clients of one run draw from one pool: the same inequality is posted to several managers
     nvars = r.randint(2, 5)
     for c in range(nclients):
         k = r.below(100)
@@ -219,7 +223,7 @@ def gen_case(r, index, tier):
         elif k < 62:
             clients.append(_gen_legal_client(r, scale_exp, family))
         elif k < 84:
-            clients.append(_gen_sat_client(r, nvars))
+            clients.append(_gen_sat_client(r, nvars, sat_pool))
         else:
             clients.append(_gen_reject_client(r, scale_exp, family))
     # twins: two clients whose designs coincide geometrically (same lattice, same cells / rectangles) but play different
@@ -556,6 +560,12 @@ class _SatClient:
 
     def run(self, o):
         cl = self.cl
+        if o["op"] == "amo_big":
+            # a chained at-most-one over a group far beyond the small sizes: deep recursion in the encoder; whether the
+            # interpreter accepts it must not depend on what the process did before
+            lits = [cl.m.newvar("b%d" % i) for i in range(o["n"])]
+            cl.m.heuleencoding(lits, 3)
+            return {"clauses": len(cl.m.clauses)}
         if o["op"] == "solve":
             res = cl.m.solve()
             return {"sat": bool(res)}   # which model is exposed is the solver's choice, not an answer of the encoding
@@ -574,7 +584,14 @@ class _RejectClient:
         u = co.f(1)
         W, H = co.f(self.c["die"]["nx"]), co.f(self.c["die"]["ny"])
         w = self.c["what"]
-        if w == "hard_overlap":
+        if w == "big_unencodable_constraint":
+            # the SAT layer refuses an equality over several hundred literals (it cannot encode it)
+            sm = _m["SAT"].SATManager()
+            e = _m["PB"].Expr()
+            for i in range(600):
+                e = e + sm.newvar("r%d" % i)
+            sm.pseudoboolencoding(e == 300)
+        elif w == "hard_overlap":
             N.Netlist({"Modules": {"B": {"hard": True, "rectangles": [[2 * u, 2 * u, 2 * u, 2 * u], [3 * u, 2 * u, 2 * u, 2 * u]]}}, "Nets": []})
         elif w == "region_outside":
             D.Die({"width": W, "height": H, "regions": [[W, H / 2, W / 2, H / 2, "#"]]})
